@@ -355,7 +355,9 @@ func (c *Conn) nextFrame() (int, MessageType, []byte, bool, bool, bool, error) {
 		if c.message != nil {
 			ml = len(*c.message)
 		}
-		if c.isMessageTooLarge(ml + int(bodyLen)) {
+		// control frames interleaved with fragments are not part of the message.
+		isDataFrame := (opcode == FragmentMessage || opcode == TextMessage || opcode == BinaryMessage)
+		if isDataFrame && c.isMessageTooLarge(ml+int(bodyLen)) {
 			return 0, 0, nil, false, false, false, ErrMessageTooLarge
 		}
 
